@@ -25,7 +25,7 @@ def plan(tier, seed):
            for i in range(5)]
   specs += [{'shard': 'ec-%d' % i, 'n': 14 if q else 160, 'weight': 5}
             for i in range(6)]
-  specs += [{'shard': 'ecdsa-%d' % i, 'n': 5 if q else 60, 'weight': 6}
+  specs += [{'shard': 'ecdsa-%d' % i, 'n': 6 if q else 60, 'weight': 6}
             for i in range(6)]
   return specs
 
@@ -77,6 +77,10 @@ def run_rsa(ctx, spec):
     for a in arts:
       if rng.chance(1, 3):
         a['e'] = rng.choice([0, 1, 3, 65537, 2 ** 70 + 1, 65536])
+    if arts and (b == 5 or (b > 5 and rng.chance(1, 6))):
+      # nothing but duplicates of one modulus
+      arts = [dict(rng.choice(arts)) for _ in range(rng.choice([2, 3, 7]))]
+      ctx.count('all_identical_batches')
     keys = workloads.rsa_keys(arts, pad=rng.choice([0, 0, 3]))
     descs = [a['kind'] for a in arts]
     _call(ctx, paranoid.CheckAllRSA, 'CheckAllRSA', _copies(keys), descs, 'rsa')
@@ -101,6 +105,11 @@ def run_ec(ctx, spec):
         ([], [])
     keys, descs = keys[:size] if size <= 3 else keys, descs[:size] if \
         size <= 3 else descs
+    if keys and (b == 5 or (b > 5 and rng.chance(1, 6))):
+      j = rng.below(len(keys))
+      m = rng.choice([2, 3, 7])
+      keys, descs = [keys[j]] * m, [descs[j] + ':identical'] * m
+      ctx.count('all_identical_batches')
     _call(ctx, paranoid.CheckAllEC, 'CheckAllEC', _copies(keys), descs, 'ec')
     for name, chk in checks.items():
       _call(ctx, chk.Check, name, _copies(keys), descs, 'ec')
@@ -134,6 +143,11 @@ def run_ecdsa(ctx, spec):
         sg.append(dup)
         descs.append('%s:dup' % c)
       ctx.count('window_sized_issuers')
+    if sg and (b == 5 or (b > 5 and rng.chance(1, 6))):
+      j = rng.below(len(sg))
+      m = rng.choice([2, 3, 7, 24])
+      sg, descs = [sg[j]] * m, [descs[j] + ':identical'] * m
+      ctx.count('all_identical_batches')
     _call(ctx, paranoid.CheckAllECDSASigs, 'CheckAllECDSASigs', _copies(sg),
           descs, 'ecdsa')
     for name, chk in checks.items():
@@ -154,6 +168,7 @@ def run(ctx, spec):
 def finalize(agg, tier):
   c = agg['counters']
   need = ['calls:rsa', 'calls:ec', 'calls:ecdsa', 'window_sized_issuers',
+          'all_identical_batches',
           'size:0', 'size:1', 'size:2',
           'size:3', 'size:4+']
   return [], ['reach counter %s is zero' % k for k in need if not c.get(k)]
